@@ -22,7 +22,7 @@ func init() {
 	property("C18",
 		"Static conformance of the no-crash / termination / error-location mechanisms: (a) the only reachable panic is the invalid-UTF-8 panic in the lexer and its guard implies an invalid encoding (RuneError with width 1); no unchecked type assertion, no integer division, log.Fatal only in main; (b) every token loop of the parser consumes a token on every path of an iteration and cannot continue at exhausted input (abstract evaluation with every window token = EOF, callee summaries 'errors at EOF'); every lexer loop reads a character per iteration and its guard is false at end of input; other loops are ranges or bounded counters; (c) every index/slice expression is discharged by a dominating comparison (range key, i < len, len > 0, i == len-1, next = i+1 < len) or by a reviewed exemption naming one function and operand; map updates target maps created by the same component; (d) every error returned by a repo function is returned or tested, and the failure branch returns a non-nil error (except the two environment callees whose failure is by design only logged); (e) error ranges are ordered (start token is the current or an earlier captured token) and no error is built from a synthesised or possibly unassigned token; (f) the environment-error flag only ever enables an error return or a log line, and lint construction equals normal construction with the flag off; (g, h) every lexer arm consumes a character and token consumption does not depend on environment or data; (i) the token-window vocabulary the loop rules rely on is what it says (nextToken shifts the window by one, xTokenIs tests its own slot, expectPeek advances once exactly on a match); a pointer result of a fallible call is looked into only after its error was tested; counters of counter loops move on every back edge. NOT decided: stack depth for pathologically nested input, the wall-clock bound, FormatText's string-offset loop. Lazily initialised pointer fields are set on every path before use (C18.j); allocation sizes are bounded by the input (C18.k); every parser error is located (C18.e); every recursive cycle of the parser consumes a token and counter bounds are exit tests (C18.b).",
 		[]string{"unicode.IsLetter(0) = unicode.IsDigit(0) = unicode.IsSpace(0) = false (the lexer's own predicates are evaluated at 0 from their definitions)", "once the lexer has returned EOF it returns EOF forever (readChar at end of input leaves ch = 0 and changes no position)", "exemptions listed in /verif/exemptions.json (each names one function and operand with a reason)", "configuration values (command_config.json) are outside the property's quantifier"},
-		"C18.a", "C18.b", "C18.c", "C18.d", "C18.e", "C18.f", "C18.g", "C18.h", "C18.i", "C16.c", "C12.a", "C12.b", "C01.c", "C01.d", "C19.b", "C16.d", "C18.j", "C18.k", "C13.a", "C13.b", "C14.d")
+		"C18.a", "C18.b", "C18.c", "C18.d", "C18.e", "C18.f", "C18.g", "C18.h", "C18.i", "C16.c", "C12.a", "C12.b", "C01.c", "C01.d", "C19.b", "C16.d", "C18.j", "C18.k", "C13.a", "C13.b", "C14.d", "C18.l")
 
 	register(&Rule{ID: "C18.a", Doc: "no reachable crash construct except the guarded invalid-UTF-8 panic", Floor: 4, Run: c18a})
 	register(&Rule{ID: "C18.b", Doc: "loops terminate: progress on every path, no continuation at exhausted input", Floor: 68, Run: c18b})
@@ -780,6 +780,7 @@ func firstPos(b *ssa.BasicBlock) token.Pos {
 type exemption struct {
 	Rule, Function, Operand, Match, Reason string
 	Requires                               string
+	Sites                                  int `json:"sites"` // how many index / slice expressions of the function the entry was reviewed for (0: not limited)
 	used                                   int
 }
 
@@ -802,6 +803,11 @@ func c18c(c *Ctx) {
 	exempt := func(fk, operand string) *exemption {
 		for _, e := range exs {
 			if e.Rule == "C18.c" && e.Function == fk && (e.Match == "" || strings.Contains(operand, e.Match)) {
+				// an entry covers the sites it was reviewed for; one more expression of the same
+				// shape in the same function is a new site
+				if e.Sites > 0 && e.used >= e.Sites {
+					continue
+				}
 				e.used++
 				return e
 			}
@@ -859,8 +865,8 @@ func c18c(c *Ctx) {
 				it := c.term(fn, idx)
 				operand = xt + "[" + it + "]"
 				switch {
-				case hasLit(must, "+("+it+" < "+lenX+")"):
-					ok, how = true, "i < len(x) dominates"
+				case hasLit(must, "+("+it+" < "+lenX+")") && (lowerBound(idx) >= 0 || hasLit(must, "-("+it+" < 0)") || hasLit(must, "+(0 <= "+it+")") || hasLit(must, "+(0 < "+it+")")):
+					ok, how = true, "0 <= i (by construction) and i < len(x) dominates"
 				case it == "0" && nonEmpty:
 					ok, how = true, "len(x) > 0 dominates x[0]"
 				case it == lenX+"-1" && nonEmpty:
@@ -907,7 +913,7 @@ func c18c(c *Ctx) {
 					ok, how = true, "full slice"
 				case lt == "1" && ht == "" && nonEmpty:
 					ok, how = true, "len(x) > 0 dominates x[1:]"
-				case lt == "" && ht != "" && hasLit(must, "+("+ht+" < "+lenX+")"):
+				case lt == "" && ht != "" && hasLit(must, "+("+ht+" < "+lenX+")") && (lowerBound(hi) >= 0 || hasLit(must, "-("+ht+" < 0)")):
 					ok, how = true, "i < len(x) dominates x[:i]"
 				case lexerPositionSlice(c, fn, x, lo, hi):
 					ok, how = true, "both bounds are lexer positions, the lower one read earlier: positions never decrease and never exceed len(input) (only readChar moves them: position = old readPosition, readPosition += decoded width — C19.b)"
@@ -2430,4 +2436,101 @@ func c18fEnvErrors(c *Ctx) {
 		}
 	}
 	c.Check(nEnv >= 3, "env-errors/scanned", "-", fmt.Sprintf("%d own errors of the parser examined, %d of them on environment-dependent conditions", nErr, nEnv), fmt.Sprintf("expected at least 3 environment-dependent errors, found %d", nEnv))
+}
+
+// lowerBound: a lower bound of an integer value that holds by construction — constants, lengths,
+// sums, counters that start at a constant and only go up. minInt when nothing is known (a value
+// read from memory, a difference, a counter that goes down).
+const minInt = -1 << 62
+
+func lowerBound(v ssa.Value) int64 {
+	type frame struct {
+		phi   *ssa.Phi
+		delta int64
+	}
+	var lb func(v ssa.Value, delta int64, stack []frame) int64
+	lb = func(v ssa.Value, delta int64, stack []frame) int64 {
+		if len(stack) > 12 {
+			return minInt
+		}
+		switch x := v.(type) {
+		case *ssa.Const:
+			if k, ok := intConst(x); ok {
+				return int64(k)
+			}
+			return minInt
+		case *ssa.Call:
+			if n := calleeName(x); n == "builtin:len" || n == "builtin:cap" {
+				return 0
+			}
+			return minInt
+		case *ssa.Convert:
+			return lb(x.X, delta, stack)
+		case *ssa.ChangeType:
+			return lb(x.X, delta, stack)
+		case *ssa.BinOp:
+			switch x.Op {
+			case token.ADD:
+				if k, ok := intConst(x.Y); ok {
+					l := lb(x.X, delta+int64(k), stack)
+					if l == minInt {
+						return minInt
+					}
+					return l + int64(k)
+				}
+				a, b := lb(x.X, delta, nil), lb(x.Y, delta, nil)
+				if a == minInt || b == minInt {
+					return minInt
+				}
+				return a + b
+			case token.SUB:
+				if k, ok := intConst(x.Y); ok {
+					l := lb(x.X, delta-int64(k), stack)
+					if l == minInt {
+						return minInt
+					}
+					return l - int64(k)
+				}
+				return minInt
+			case token.MUL:
+				a, b := lb(x.X, 0, nil), lb(x.Y, 0, nil)
+				if a >= 0 && b >= 0 {
+					return 0
+				}
+				return minInt
+			case token.QUO, token.REM, token.SHR:
+				if a := lb(x.X, 0, nil); a >= 0 {
+					if b := lb(x.Y, 0, nil); b >= 0 {
+						return 0
+					}
+				}
+				return minInt
+			}
+			return minInt
+		case *ssa.Phi:
+			for _, f := range stack {
+				if f.phi == x {
+					// back at the counter: fine when the way round did not go down
+					if delta-f.delta >= 0 {
+						return 1 << 62
+					}
+					return minInt
+				}
+			}
+			best := int64(1 << 62)
+			for _, e := range x.Edges {
+				l := lb(e, delta, append(stack, frame{x, delta}))
+				if l < best {
+					best = l
+				}
+			}
+			return best
+		}
+		return minInt
+	}
+	r := lb(v, 0, nil)
+	if r == 1<<62 {
+		return minInt
+	}
+	return r
 }
